@@ -349,7 +349,6 @@ class HttpParser(abc.ABC, Generic[_MsgT]):
         data_len = len(data)
         start_pos = 0
         loop = self.loop
-        max_line_length = self.max_line_size
 
         should_close = False
         while start_pos < data_len or self._payload_has_more_data:
@@ -381,12 +380,16 @@ class HttpParser(abc.ABC, Generic[_MsgT]):
                     line = data[start_pos:pos]
                     if SEP == b"\n":  # For lax response parsing
                         line = line.rstrip(b"\r")
+                    # The first line of a message is the status/request line,
+                    # everything after it is a header. Decide from the parser
+                    # state, not from where this read happened to start.
+                    max_line_length = (
+                        self.max_field_size if self._lines else self.max_line_size
+                    )
                     if len(line) > max_line_length:
                         raise LineTooLong(line[:100] + b"...", max_line_length)
 
                     self._lines.append(line)
-                    # After processing the status/request line, everything is a header.
-                    max_line_length = self.max_field_size
 
                     if len(self._lines) > self.max_headers:
                         raise BadHttpMessage("Too many headers received")
@@ -531,8 +534,11 @@ class HttpParser(abc.ABC, Generic[_MsgT]):
                     # bytes get appended to this line and leak in the error.
                     if b"\n" in self._tail:
                         raise BadHttpMessage("Bad line ending, expected CRLF")
-                    if len(self._tail) > self.max_line_size:
-                        raise LineTooLong(self._tail[:100] + b"...", self.max_line_size)
+                    max_line_length = (
+                        self.max_field_size if self._lines else self.max_line_size
+                    )
+                    if len(self._tail) > max_line_length:
+                        raise LineTooLong(self._tail[:100] + b"...", max_line_length)
                     data = EMPTY
                     break
 
